@@ -76,6 +76,9 @@ class Conv:
         out = cb.rec.get("output") or ""
         if any(mentions_bytes(x) for x in ins) or mentions_bytes(out):
             return True
+        if out.strip() == "bool" and len(ins) == 1 and len(cb.blocks) <= 8 and (cb.rec.get("impl_self_adt") or "").startswith("crate::fields::") and \
+                any((t.get("fn") or {}).get("name") in ("is_even", "is_odd") for _, t in cb.calls()):
+            return True          # a parity predicate kept in the field layer: looked into, so that what it tests (canonical or not) is seen
         sig = " ".join(ins) + " " + out
         for a in self.root_adts:
             if re.search(re.escape(a) + r"(?![:\w])", sig):
